@@ -74,6 +74,29 @@ Theorem C05_get_tx_sound :
 Proof. intros; eapply inv_get_tx_sound; eauto. Qed.
 Print Assumptions C05_get_tx_sound.
 
+(** The invariant is also kept by deliveries that fail a consensus pre-check (VerifyTimestamp: not
+    negatively cached; VerifySign: cached) and by blocks produced by the node itself (usedBState:
+    stale test, no orphan resolution, commit-only execution). *)
+Theorem C05_add_block_gen_inv :
+  forall (apply : sroot -> block -> option sroot) (orphan_cap : nat) (f27 : bool) (spent : sroot -> txid -> bool),
+  (forall r b r', apply r b = Some r' -> NoDup (txs b) /\ forall t, In t (txs b) -> spent r t = false) ->
+  (forall r b r' t, apply r b = Some r' -> spent r' t = spent r t || mem t (txs b)) ->
+  forall (U : block -> Prop), (forall a b, U a -> U b -> hash_field a = hash_field b -> a = b) ->
+  forall (g : block),
+  forall own pre n b, Inv apply spent U g n -> U b -> (f27 = true \/ no b <> 0) ->
+  Inv apply spent U g (fst (add_block_gen apply true f27 orphan_cap own pre n b)).
+Proof. intros; eapply add_block_gen_inv; eauto. Qed.
+Print Assumptions C05_add_block_gen_inv.
+
+(** A rejection for a transient reason (future timestamp; a produced block that became stale) leaves
+    the node - in particular errBlocks - untouched, so the block is accepted when delivered again. *)
+Theorem C05_transient_rejection_not_cached :
+  forall (apply : sroot -> block -> option sroot) (orphan_cap : nat) (f27 : bool) own n b,
+  fst (add_block_gen apply true f27 orphan_cap own PreTimestamp n b) = n /\
+  (prev b <> hash_field (best n) -> forall pre, fst (add_block_gen apply true f27 orphan_cap true pre n b) = n).
+Proof. intros; eapply transient_rejection_not_cached; eauto. Qed.
+Print Assumptions C05_transient_rejection_not_cached.
+
 (** findAncestor (the syncer's ancestor search) returns a listed block that is on the main chain, and
     finds one whenever a listed hash names a main-chain block. *)
 Theorem C05_find_ancestor_sound :
